@@ -12,6 +12,11 @@ ENTRY = {
             "Observable of a task: the canonical result (bytes / rendered value / error; map-order-insensitive where Go map order permutes entries) of ALL its executions, DIVERGE if two goroutines differ; oracle: the same task executed once, "
             "alone, in another cold process. TypeOf pointer identity across goroutines must be the same object. Per scenario a c.run case: child exit status, race detector report (GORACE exitcode=66, 'DATA RACE' on stderr -> impl 'race <frames>'), "
             "runtime fatal error (concurrent map writes), timeout -> oracle exit0. One detailed group per shard (every task a case) and summary groups (one case per function and scenario, every disagreement in full). "
+            "Error paths of the pool users, mixed into every round among the ordinary calls (they must leave every other call's result equal to its solo oracle): json.Marshal and Encoder.Encode that FAIL in Append after output has been written "
+            "(chan / func field, MarshalJSON returning an error, NaN / Inf, pointer cycle, map[string]any and map[string]RawMessage whose sorted branch fails half way, three nested maps held at the error), Tokenizer run into an error then Reset and reused "
+            "(must equal a fresh tokenizer; double Reset), proto.Unmarshal failing inside a map entry followed by a good decode; values whose MarshalJSON calls json.Marshal (nested use of the buffer pool) with the expected text known by construction "
+            "(oracle constant ok). Pool children (cold process): (1) single goroutine, GOMAXPROCS 1, 60 x [failed Encode/Marshal, then nested Marshal and Encode with known text]; (2) cycles of many failures on one goroutine then G goroutines doing "
+            "Marshal only on 48 values whose text is known from encoding/json (GOMAXPROCS fixed and the pool resized BEFORE the failures, since sync.Pool discards its per-P caches when the number of Ps changes). "
             "A self-test child with a deliberate race checks the detection pipeline. "
             "Correspondence of the Coq machine (m.hist): single-threaded lookup histories over fresh types (recursive ones included) on each of the five caches; after every call the harness reads the unexported cache variable "
             "(go:linkname) and reports hit/miss (pointer identity) and the number of entries; the extracted machine's sequential projection (seq_obs) must print the same, including proto's pair publication and TypeOf's publication of the seen map.",
